@@ -422,7 +422,7 @@ def check(ctx):
         "or, for list results, the list without the items whose access failed; such rows are counted as 'recovered'",
         "a listed PID 0 for which the OS answers 'no such process' is contradictory input: NoSuchProcess and ZombieProcess "
         "are both accepted there (spec operator Contradictory)",
-        "ERROR_PARTIAL_COPY (retried for up to a second by design, issue #875) is not among the Windows codes injected",
+        "ERROR_PARTIAL_COPY is injected on its own rows: transient (1 or 5 native accesses) must not show; persistent may end as AccessDenied (by design, issue #875) or as the error itself",
         "exported names are checked with hasattr(psutil, name) and membership in psutil.__all__",
     ]
     c = consts(4 if thorough else 3)
@@ -491,6 +491,16 @@ def check(ctx):
                     if via == "package":
                         row["via"] = "package"
                     batches[p].append(("vanished", (m, via, oneshot), row))
+    # Windows: ReadProcessMemory-based methods retry on ERROR_PARTIAL_COPY; a transient one must not
+    # show, a persistent one ends as AccessDenied (by design, issue #875) or as the error itself
+    for m in ("cmdline", "environ", "cwd"):
+        if m in plat_out["windows"]["methods"]:
+            for via in ("module", "package"):
+                for n in (1, 5, 10 ** 6):
+                    row = {"k": "partial", "m": m, "pid": 5, "n": n}
+                    if via == "package":
+                        row["via"] = "package"
+                    batches["windows"].append(("partial", (m, via, n), row))
     for e in chosen:
         p = e["row"]["p"]
         batches[p].append(("err", ("module", e), module_row(e)))
@@ -549,6 +559,23 @@ def check(ctx):
                                  {"platform": p, "row": row, "expected": out, "answer": ans})
                 if not bad:
                     lay_ok[(p, mode)] += 1
+            elif tag == "partial":
+                m, via, n = payload
+                ctx.case(("partial", p, m, via, n))
+                if ans.get("cls") == "RunnerError":
+                    raise core.Machinery("runner error on partial-copy row %s.%s: %s" % (p, m, ans.get("text")))
+                base = baselines.get((p, via, m, 5), {})
+                if n < 33:
+                    ok = ans.get("cls") == "ok" and ans.get("val") == base.get("val")
+                else:
+                    ok = (ans.get("cls") == "AccessDenied" and ans.get("pid") == 5) or ans.get("cls") == "Unchanged"
+                if not ok:
+                    ctx.disagree("conf:windows:partial-copy:%s:%s" % (m, "transient" if n < 33 else "persistent"),
+                                 "%s windows.%s() with ERROR_PARTIAL_COPY on %s -> %r; expected %s"
+                                 % (via, m, "its first %d native accesses" % n if n < 33 else "every native access",
+                                    {k: v for k, v in ans.items() if k != "log"},
+                                    "the value of an undisturbed call" if n < 33 else "AccessDenied(pid=5) (or the OSError itself)"),
+                                 {"platform": p, "row": row, "answer": ans})
             elif tag == "vanished":
                 m, via, oneshot = payload
                 ctx.case(("vanished", p, m, via, oneshot))
